@@ -300,7 +300,12 @@ def audit(prop, spec):
             code = ln.split("--")[0]
             if BANNED.search(code):
                 problems.append("banned construct in %s: %s" % (os.path.relpath(f, LEAN), code.strip()[:120]))
+    global LAST_AXIOMS
+    LAST_AXIOMS = {n: sorted(found[n]) for n in names if n in found}
     return len(names), discharged, problems
+
+
+LAST_AXIOMS = {}
 
 
 # ---------------------------------------------------------------------------
@@ -639,7 +644,7 @@ def run_property(prop, tier, seed):
     coverage = dict(obligations=nobl, discharged=ndis,
                     checker_cmd="cd /verif/lean && lake build %s && lake env lean ../build/audit/%s.lean   (#print axioms)" % (" ".join(spec["modules"]), prop),
                     trusted_base=TRUSTED_BASE + spec.get("trusted_extra", []),
-                    theorems=spec["theorems"])
+                    theorems=spec["theorems"], axioms=dict(LAST_AXIOMS))
     evaluations = 0
     distinct = set()
     samples = []
